@@ -69,10 +69,13 @@ func NewConfigWithBase(h Handler, config *pb.Configuration) (*Config, error) {
 			return nil, fmt.Errorf("invalid configuration: %v", err)
 		}
 	}
-	return &Config{
-		configuration: config,
-		h:             h,
-	}, nil
+	c := &Config{h: h}
+	if config != nil {
+		// Keep a private copy: later edits of the caller's message must not
+		// change the current configuration.
+		c.configuration = proto.Clone(config).(*pb.Configuration)
+	}
+	return c, nil
 }
 
 // Current returns a copy of the current configuration.
@@ -100,7 +103,9 @@ func (c *Config) Load(config *pb.Configuration) error {
 	}
 	// Diff before setting new state.
 	c.handleDiffs(config)
-	c.configuration = config
+	// Keep a private copy: later edits of the caller's message must not change
+	// the current configuration.
+	c.configuration = proto.Clone(config).(*pb.Configuration)
 
 	return nil
 }
@@ -183,7 +188,7 @@ func Validate(config *pb.Configuration) error {
 		if target.Request == "" {
 			return fmt.Errorf("target %q missing request", name)
 		}
-		if _, ok := config.Request[target.Request]; !ok {
+		if config.Request[target.Request] == nil {
 			return fmt.Errorf("missing request %q for target %q", target.Request, name)
 		}
 	}
